@@ -29,9 +29,9 @@ func c15Scenarios(cfg runCfg) []Scenario {
 			out = append(out, Scenario{Family: "round", Seed: mix(cfg.seed, 15, uint64(i)), N: 8 + int(mix(cfg.seed, 1515, uint64(i))%9)})
 		}
 	}
-	for i := 0; i < cfg.n(48, 25); i++ {
+	for i := 0; i < cfg.n(32, 25); i++ {
 		if cfg.mine(i) {
-			out = append(out, Scenario{Family: "failing-together", Seed: mix(cfg.seed, 15, 78, uint64(i)), N: 4 + int(mix(cfg.seed, 1517, uint64(i))%8)})
+			out = append(out, Scenario{Family: "failing-together", Seed: mix(cfg.seed, 15, 78, uint64(i)), N: 3 + int(mix(cfg.seed, 1517, uint64(i))%5)})
 		}
 	}
 	for i := 0; i < cfg.n(64, 25); i++ {
